@@ -51,6 +51,13 @@ def decompose(rng, prog):
     # (class definitions may refer to earlier classes: the nested file, included first, takes a prefix of them)
     nmore = rng.randint(1, max(1, len(classes) - 1)) if nested else 0
     for ci_, c in enumerate(classes):
+        if c.startswith("cLadder = ") and getattr(prog, "c18_ladder", None) is not None:
+            # a ladder of overlapping conditions: exactly the first true branch is compiled
+            lvl, vals = prog.c18_ladder
+            tgt_ = inc if use_inc else main
+            tgt_ += ["#define LEVEL %d" % lvl, "#if LEVEL >= 3", "cLadder = glyphid(%d);" % vals[0], "#elif LEVEL >= 2", "cLadder = glyphid(%d);" % vals[1],
+                     "#elif LEVEL >= 1", "cLadder = glyphid(%d);" % vals[2], "#else", "cLadder = glyphid(%d);" % vals[3], "#endif"]
+            continue
         to_more = ci_ < nmore
         target = more if to_more else inc if use_inc else main
         tname = "inc/more.gdh" if to_more else incname if use_inc else "p.gdl"
@@ -147,6 +154,13 @@ def run(tier, seed, replay=None):
         os.makedirs(d)
         open(os.path.join(d, "in.ttf"), "wb").write(prog.font)
         shutil.copy(common.STDDEF, d)
+        if i % 3 == 0:
+            lvl = crng.randint(0, 3)
+            vals = [2, 3, 4, 5]
+            prog.c18_ladder = (lvl, vals)
+            prog.class_order.append("cLadder")
+            prog.class_defs["cLadder"] = "glyphid(%d)" % vals[3 - lvl]
+            prog.classes["cLadder"] = [vals[3 - lvl]]
         if i % 2 == 1:
             prog.c18_override = True
             for nm, df in (("cOvA", "glyphid(2, 3)"), ("cOvB", "glyphid(3, 4)")):
